@@ -11,24 +11,27 @@
 From Boltons Require Import Lib.Prelude Lib.C12_Base.
 
 (* ---- the scripted socket ---------------------------------------------------- *)
-Inductive rcv := RData (b : bytes) | RTimeout.   (* b'' = closed *)
+Inductive rcv := RData (b : bytes) | RIntr (e : exn).   (* b'' = closed; RIntr = the call raised *)
 
 (* sock.recv(n) *)
 Definition sock_recv (n : nat) (nt : net) : rcv * net :=
   match nt with
   | [] => (RData [], [])
-  | TimeoutEv :: r => (RTimeout, r)
+  | TimeoutEv :: r => (RIntr Timeout, r)      (* socket.timeout, re-raised as Timeout *)
+  | ErrorEv c :: r => (RIntr (OSErr c), r)    (* any other socket error propagates *)
   | Chunk c :: r =>
       if Nat.leb (length c) n then (RData c, r)
       else (RData (firstn n c), Chunk (skipn n c) :: r)
   end.
 
-(* sock.send(data): Some k = k bytes taken, None = socket.timeout *)
-Definition sock_send (data : bytes) (sc : list sev) : option nat * list sev :=
+(* sock.send(data): bytes taken, or the exception the caller will see *)
+Inductive sres := SSent (k : nat) | SIntr (e : exn).
+Definition sock_send (data : bytes) (sc : list sev) : sres * list sev :=
   match sc with
-  | [] => (Some (length data), [])
-  | STimeoutEv :: r => (None, r)
-  | SAccept k :: r => (Some (Nat.min (S k) (length data)), r)
+  | [] => (SSent (length data), [])
+  | STimeoutEv :: r => (SIntr Timeout, r)
+  | SErrorEv c :: r => (SIntr (OSErr c), r)
+  | SAccept k :: r => (SSent (Nat.min (S k) (length data)), r)
   end.
 
 (* an upper bound on the number of sock.recv calls that return data or time
@@ -37,7 +40,7 @@ Fixpoint net_size (n : net) : nat :=
   match n with
   | [] => 0
   | Chunk b :: r => S (length b) + net_size r
-  | TimeoutEv :: r => S (net_size r)
+  | _ :: r => S (net_size r)
   end.
 
 (* ---- bytearray.find(delim, start, end) --------------------------------------- *)
@@ -83,7 +86,8 @@ Fixpoint ru_loop (fuel : nat) (d : bytes) (lim : limit) (rs : nat)
       | None =>
           if lim_exceeded lim recvd then (RuExn MessageTooLong recvd, n)
           else match sock_recv rs n with
-               | (RTimeout, n') => (RuExn Timeout recvd, n')
+               (* except socket.timeout / except Exception: both store recvd into rbuf *)
+               | (RIntr e, n') => (RuExn e recvd, n')
                | (RData [], n') => (RuExn ConnectionClosed recvd, n')
                | (RData nxt, n') =>
                    (* recvd.extend(nxt); find_offset_start = -len(nxt) - len_delimiter + 1,
@@ -123,7 +127,7 @@ Fixpoint rs_loop (fuel : nat) (size : limit) (rsz : nat) (acc : bytes) (total : 
           let total' := total + length nxt in
           if reached size total' then (RsDone acc total' nxt, n)
           else match sock_recv rsz n with
-               | (RTimeout, n') => (RsExn Timeout (acc ++ nxt), n')
+               | (RIntr e, n') => (RsExn e (acc ++ nxt), n')
                | (RData nxt', n') => rs_loop f size rsz (acc ++ nxt) total' nxt' n'
                end
       end
@@ -137,7 +141,7 @@ Definition recv_size_lim (s : bs) (size : limit) : outcome * bs :=
                | rb => (RData rb, nt s)
                end in
   match first with
-  | (RTimeout, n') => (OExn Timeout, set_recv s [] n')
+  | (RIntr e, n') => (OExn e, set_recv s [] n')
   | (RData nxt, n') =>
       match rs_loop (S (S (net_size n'))) size (recvsize s) [] 0 nxt n' with
       | (RsExn e acc, n'') => (OExn e, set_recv s acc n'')
@@ -173,7 +177,7 @@ Definition recv (s : bs) (size : nat) : outcome * bs :=
   else match rbuf s with
        | _ :: _ => (OBytes (rbuf s), set_recv s [] (nt s))
        | [] => match sock_recv (recvsize s) (nt s) with
-               | (RTimeout, n') => (OExn Timeout, set_recv s [] n')
+               | (RIntr e, n') => (OExn e, set_recv s [] n')
                | (RData data, n') =>
                    if Nat.ltb size (length data)
                    then (OBytes (firstn size data), set_recv s (skipn size data) n')
@@ -185,17 +189,20 @@ Definition recv (s : bs) (size : nat) : outcome * bs :=
 Definition set_send (s : bs) (sb : list bytes) (sc : list sev) (w : bytes) : bs :=
   mkBS (rbuf s) (nt s) (maxsize s) (recvsize s) sb sc w.
 
-(* `while sbuf[0]:` sent = sock.send(sbuf[0]); sbuf[0] = sbuf[0][sent:] *)
+(* `while sbuf[0]:` sent = sock.send(sbuf[0]); sbuf[0] = sbuf[0][sent:]
+   sbuf[0] is trimmed after every partial send, so whatever exception ends the
+   loop (socket.timeout -> Timeout, anything else propagates) the buffer holds
+   exactly the unsent rest *)
 Fixpoint send_loop (fuel : nat) (cur : bytes) (total : nat) (sc : list sev) (w : bytes)
-  : option nat * bytes * list sev * bytes (* Some total | None = Timeout; sbuf[0]; script; wire *) :=
+  : (nat + exn) * bytes * list sev * bytes (* inl total | inr exception; sbuf[0]; script; wire *) :=
   match fuel with
-  | 0 => (None, cur, sc, w)           (* unreachable with fuel = S (len cur); see send *)
+  | 0 => (inr OutOfFuel, cur, sc, w)           (* unreachable with fuel = S (len cur); see send *)
   | S f =>
       match cur with
-      | [] => (Some total, [], sc, w)
+      | [] => (inl total, [], sc, w)
       | _ => match sock_send cur sc with
-             | (None, sc') => (None, cur, sc', w)
-             | (Some k, sc') => send_loop f (skipn k cur) (total + k) sc' (w ++ firstn k cur)
+             | (SIntr e, sc') => (inr e, cur, sc', w)
+             | (SSent k, sc') => send_loop f (skipn k cur) (total + k) sc' (w ++ firstn k cur)
              end
       end
   end.
@@ -212,8 +219,8 @@ Definition sbuf_head (sb : list bytes) : bytes := match sb with c :: _ => c | []
 Definition send (s : bs) (data : bytes) : outcome * bs :=
   let cur := sbuf_head (join_sbuf (sbuf s ++ [data])) in
   match send_loop (S (length cur)) cur 0 (script s) (wire s) with
-  | (Some total, cur', sc', w') => (ONat total, set_send s [cur'] sc' w')
-  | (None, cur', sc', w') => (OExn Timeout, set_send s [cur'] sc' w')
+  | (inl total, cur', sc', w') => (ONat total, set_send s [cur'] sc' w')
+  | (inr e, cur', sc', w') => (OExn e, set_send s [cur'] sc' w')
   end.
 
 Definition flush (s : bs) : outcome * bs :=
@@ -261,16 +268,16 @@ Fixpoint run (stream_len : nat) (s : bs) (ops : list op) : list (op * step_obs) 
 Definition final_view (stream_len : nat) (s : bs) : final_obs :=
   mkFinal (getrecvbuffer s) (consumed stream_len s) (getsendbuffer s) (wire s).
 
-(* a caller that repeats a call which raised Timeout (at most [fuel] times) *)
+(* a caller that repeats a call which was interrupted (Timeout, or a socket
+   error such as EWOULDBLOCK on a non-blocking socket), at most [fuel] times *)
 Fixpoint step_retry (fuel : nat) (s : bs) (o : op) : outcome * bs :=
-  match step s o with
-  | (OExn Timeout, s') =>
-      match fuel with
-      | 0 => (OExn Timeout, s')
-      | S f => step_retry f s' o
-      end
-  | r => r
-  end.
+  let '(out, s') := step s o in
+  if is_interrupt out then
+    match fuel with
+    | 0 => (out, s')
+    | S f => step_retry f s' o
+    end
+  else (out, s').
 
 Fixpoint run_retry (s : bs) (ops : list op) : list outcome :=
   match ops with
@@ -331,7 +338,7 @@ Definition read_ns (x : ns) (m : option nat) : outcome * ns :=
       | Some size =>
           if Nat.ltb mx size then (OExn NetstringMessageTooLong, with_bs x s1)
           else
-            (* bytes this call has consumed so far: put back if a Timeout interrupts it *)
+            (* bytes this call has consumed so far: put back if an exception interrupts it *)
             let unread (s : bs) (consumed : bytes) := set_recv s (consumed ++ rbuf s) (nt s) in
             match recv_size s1 size with
             | (OBytes payload, s2) =>
@@ -339,12 +346,9 @@ Definition read_ns (x : ns) (m : option nat) : outcome * ns :=
                 | (OBytes t, s3) =>
                     if bytes_eqb t [44%N] then (OBytes payload, with_bs x s3)
                     else (OExn NetstringProtocolError, with_bs x s3)
-                | (OExn Timeout, s3) =>
-                    (OExn Timeout, with_bs x (unread s3 (size_prefix ++ 58%N :: payload)))
-                | (out, s3) => (out, with_bs x s3)
+                | (out, s3) => (out, with_bs x (unread s3 (size_prefix ++ 58%N :: payload)))
                 end
-            | (OExn Timeout, s2) => (OExn Timeout, with_bs x (unread s2 (size_prefix ++ [58%N])))
-            | (out, s2) => (out, with_bs x s2)
+            | (out, s2) => (out, with_bs x (unread s2 (size_prefix ++ [58%N])))
             end
       end
   | (out, s1) => (out, with_bs x s1)
@@ -378,16 +382,15 @@ Fixpoint ns_run (wside : bool) (stream_len : nat) (x : ns) (ops : list nsop) : l
       ((o, ob) :: obs, x'')
   end.
 
-(* a reader that repeats read_ns after Timeout *)
+(* a reader that repeats read_ns after an interruption *)
 Fixpoint read_ns_retry (fuel : nat) (x : ns) (m : option nat) : outcome * ns :=
-  match read_ns x m with
-  | (OExn Timeout, x') =>
-      match fuel with
-      | 0 => (OExn Timeout, x')
-      | S f => read_ns_retry f x' m
-      end
-  | r => r
-  end.
+  let '(out, x') := read_ns x m in
+  if is_interrupt out then
+    match fuel with
+    | 0 => (out, x')
+    | S f => read_ns_retry f x' m
+    end
+  else (out, x').
 
 Fixpoint ns_read_retry (x : ns) (k : nat) : list outcome :=
   match k with
